@@ -37,3 +37,27 @@ def mutable_default_mutations(func):
                     out.append((name, n.lineno, how))
                     break
     return out
+
+
+def index_bound_violations(func):
+    """`while ... j <= len(xs) ...:  ... xs[j] ...` : a loop that subscripts xs with its counter must stop at j < len(xs);
+    with <= the subscript one past the end raises IndexError.  -> [(line, text)]"""
+    out = []
+    for w in ast.walk(func.node):
+        if not isinstance(w, ast.While):
+            continue
+        conds = w.test.values if (isinstance(w.test, ast.BoolOp) and isinstance(w.test.op, ast.And)) else [w.test]
+        for c in conds:
+            if not (isinstance(c, ast.Compare) and len(c.ops) == 1):
+                continue
+            l, op, r = c.left, c.ops[0], c.comparators[0]
+            if isinstance(r, ast.Name) and isinstance(l, ast.Call):
+                l, r = r, l
+                op = {ast.Lt: ast.Gt, ast.Gt: ast.Lt, ast.LtE: ast.GtE, ast.GtE: ast.LtE}.get(type(op), type(op))()
+            if not (isinstance(l, ast.Name) and isinstance(r, ast.Call) and isinstance(r.func, ast.Name) and r.func.id == 'len' and len(r.args) == 1):
+                continue
+            seq = ast.unparse(r.args[0])
+            reads = [x for st in w.body for x in ast.walk(st) if isinstance(x, ast.Subscript) and isinstance(x.slice, ast.Name) and x.slice.id == l.id and ast.unparse(x.value) == seq]
+            if reads and isinstance(op, ast.LtE):
+                out.append((c.lineno, '%s[%s] is read while %s' % (seq, l.id, ast.unparse(c))))
+    return out
